@@ -49,6 +49,8 @@ pub fn patterns() -> Vec<&'static str> {
         "\\p{L}{1,40}", "[\\p{L}\\p{Nd}_]{3,40}", "\\p{Lu}\\p{Ll}{2,64}", "\\p{L}{20}", "(\\p{L}|\\p{N})*", "[a-z]{1,1000}", ".{1,255}", "\\w{1,100}", "(\\p{L}{1,8}){1,8}",
         // invalid patterns: both functions must answer false
         "[a", "(", "*a", "a{2,1}", "(?P<", "\\", "a)",
+        // escapes of other regex dialects that are not patterns here (back-references, octal)
+        "\\1", "\\0", "\\12", "\\101", "(A)\\1", "(a)\\1", "\\8", "\\141", "a\\0", "\\cA", "\\Qa\\E", "a{,2}", "[[:alpha:]]", "\\x41", "\\u0041", "\\N{LATIN SMALL LETTER A}", "(?=a)a", "(?<!b)a", "\\ba", "\\Aa", "a\\z", "a*?", "a+?", "a??", "(?i)A", "(?s).", "(?x) a",
         // quotes inside
         "'", "\"", "a'b", "'a'", "\"a\"", "x|'", "'|x",
     ]
@@ -166,6 +168,10 @@ pub fn run(ctx: &Ctx) -> Result<Evidence, String> {
         ("$.s[?{F}($.p, @)]", false),
         ("$.s[?{F}({P}, @)]", true),
         ("$.s[?{F}(@, {P}) || {F}(@, 'c')]", true),
+        ("$.s[?{F}(@, value($.p))]", false),
+        ("$.s[?{F}(value(@), $.p)]", false),
+        ("$.s[?!{F}(value(@), value($.p))]", false),
+        ("$.s[?{F}(@, value($..p))]", false),
     ];
     // long and unusual strings: length() by Unicode scalar values, match/search over them
     let ldoc = Doc::new(&J::Obj(vec![("s".into(), J::Arr(oracle::gen::boundary_strings().into_iter().map(J::Str).collect())), ("p".into(), J::str("a{2048}"))]));
